@@ -12,9 +12,20 @@ cp "$VERIF/sim/net/harness/Cargo.toml" "$WS/Cargo.toml"
 [ -f "$WS/Cargo.lock" ] || cp "$VERIF/sim/Cargo.lock" "$WS/Cargo.lock"
 cp "$VERIF/sim/net/harness/src/main.rs" "$WS/src/main.rs.new"
 cmp -s "$WS/src/main.rs.new" "$WS/src/main.rs" 2>/dev/null || cp "$WS/src/main.rs.new" "$WS/src/main.rs"
+# generated WSDLs (NET profile, with instance documents): a few in quick, more in thorough
+NGEN=3; case " $* " in *" thorough "*) NGEN=${VERIF_NET_GENERATED:-24};; esac
+[ "$id" = "build-only" ] && NGEN=3
+(cd "$VERIF/sim" && cargo build --release --offline -p sim-det) >"$VERIF/target/logs/build-sim-det.log" 2>&1 \
+  || { tail -30 "$VERIF/target/logs/build-sim-det.log" >&2; echo "HARNESS-ERROR: cannot build sim-det" >&2; exit 2; }
+EXTRA=""
+rm -rf "$VERIF/target/net/gen"; mkdir -p "$VERIF/target/net/gen"
+for g in $(seq 0 $((NGEN-1))); do
+  "$VERIF/target/sim/release/sim-det" gen-net "$g" "$VERIF/target/net/gen/g$g" >/dev/null || { echo "HARNESS-ERROR: generator failed" >&2; exit 2; }
+  EXTRA="$EXTRA generated_$g=$VERIF/target/net/gen/g$g/gen.wsdl"
+done
 GEN=$WS/src/clients.new
 rm -rf "$GEN"; mkdir -p "$GEN"
-python3 "$VERIF/sim/net/gen_driver.py" "$GEN" ${VERIF_NET_EXTRA:-} >"$VERIF/target/logs/net-gen.log" 2>&1 \
+python3 "$VERIF/sim/net/gen_driver.py" "$GEN" $EXTRA ${VERIF_NET_EXTRA:-} >"$VERIF/target/logs/net-gen.log" 2>&1 \
   || { cat "$VERIF/target/logs/net-gen.log" >&2; echo "HARNESS-ERROR: no client could be generated from the working tree" >&2; exit 2; }
 # keep mtimes when nothing changed so that cargo does not rebuild
 for f in "$GEN"/*; do
